@@ -482,6 +482,33 @@ def odd_cases():
             ('EAItemMove', 'padded', B.ea('MOVE', {'storyID': 'B', 'itemID': 'I1'}, [B.ids('itemID', ['i1', 'I1 '])])),
             ('EAItemInsert', 'padded', B.ea('INSERT', {'storyID': 'B', 'itemID': ' I1'}, [[new_item('N')]]))]:
         case(cls, 'look-alike IDs: ' + lbl, msg, pad)
+    # roElementAction whose operation attribute is missing, misspelt, lower-case or accompanied by others:
+    # classification must answer (UnknownMosFileType or a class), never escape as a built-in exception
+    for op, extra in [(ABSENT, {}), (ABSENT, {'Operation': 'MOVE'}), (ABSENT, {'op': 'DELETE'}), ('move', {}), ('', {}), ('MOVE ', {}),
+                      ('MOVE', {'operation2': 'x'}), ('INSERT', {'type': 'story'})]:
+        m = B.ea(op, {'storyID': 'A'}, [B.ids('storyID', ['B'])])
+        ea_el = [c for c in m[4] if c[0] == 'roElementAction'][0]
+        ea_el[1].extend([k, v] for k, v in extra.items())
+        case('EAStoryMove', f'operation={op!r} extra={sorted(extra)}', m)
+    # IDs with characters that matter to XPath predicates, format strings and XML escaping
+    from .gen_hist import SPECIAL_IDS
+    for k, sp in enumerate(SPECIAL_IDS):
+        other = SPECIAL_IDS[(k + 5) % len(SPECIAL_IDS)]
+        sro = B.ro_doc([st('A'), B.story(sp, [B.item('I1'), B.item(sp), B.p('x'), B.item(other)]), st(other)], pattern='between')
+        for cls, lbl, msg in [
+                ('StoryDelete', 'delete', B.story_delete([sp])), ('StoryMove', 'move', B.story_move([other, sp])),
+                ('StoryReplace', 'replace', B.story_replace(sp, [X])), ('StoryInsert', 'insert before', B.story_insert(sp, [X])),
+                ('StorySend', 'send', B.story_send(sp, [B.p('y')])),
+                ('EAStorySwap', 'swap', B.ea('SWAP', ABSENT, [B.ids('storyID', [sp, other])])),
+                ('EAStoryMove', 'ea move', B.ea('MOVE', {'storyID': sp}, [B.ids('storyID', [other])])),
+                ('ItemDelete', 'item delete', B.item_delete(sp, [sp])), ('ItemInsert', 'item insert', B.item_insert(sp, sp, [new_item('N')])),
+                ('ItemReplace', 'item replace', B.item_replace(sp, other, [new_item(sp)])),
+                ('ItemMoveMultiple', 'item move', B.item_move_multiple(sp, [other, sp])),
+                ('EAItemSwap', 'item swap', B.ea('SWAP', {'storyID': sp}, [B.ids('itemID', [sp, other])])),
+                ('EAItemMove', 'ea item move', B.ea('MOVE', {'storyID': sp, 'itemID': 'I1'}, [B.ids('itemID', [sp])])),
+                ('EAItemDelete', 'ea item delete', B.ea('DELETE', {'storyID': sp}, [B.ids('itemID', [other, sp])])),
+                ('EAItemReplace', 'ea item replace', B.ea('REPLACE', {'storyID': sp, 'itemID': sp}, [[new_item('N')]]))][k % 3::3]:
+            case(cls, f'special ID {sp!r}: {lbl}', msg, sro)
     # a blank-ID story carried into a running order that already holds a blank-ID story
     for cls, lbl, msg in [
             ('StoryInsert', 'blank carried, blank present', B.story_insert('C', [B.story(BLANK, [B.item('Q')]), X])),
